@@ -801,11 +801,32 @@ def match_known(pid, fail, case_lines, all_fails=()):
                 and fail.get("cfg", "").startswith("immediate/"):
             # excused only when, under the same reference terminal, this draw or
             # an earlier one of the same case wrote the bottom-right cell
-            for g in all_fails:
-                if g["code"] == 399 and g["case"] == fail["case"] and g["term"] == fail["term"] \
-                        and g["cfg"] == fail["cfg"] and g["op"] <= fail["op"]:
-                    return f
+            idx = marker_index(all_fails)
+            first = idx.get((fail["case"], fail["term"], fail["cfg"]))
+            if first is not None and first <= fail["op"]:
+                return f
     return None
+
+
+_MARKERS = {}
+
+
+def marker_index(all_fails):
+    """(case, terminal, configuration) -> index of the earliest operation that carries
+    the D7 marker 399; built once per list of oracle reports"""
+    key = id(all_fails)
+    hit = _MARKERS.get(key)
+    if hit is not None and hit[0] is all_fails:
+        return hit[1]
+    idx = {}
+    for g in all_fails:
+        if g["code"] == 399:
+            k = (g["case"], g["term"], g["cfg"])
+            if k not in idx or g["op"] < idx[k]:
+                idx[k] = g["op"]
+    _MARKERS.clear()
+    _MARKERS[key] = (all_fails, idx)
+    return idx
 
 
 def run_check(pid, tier, seed, replay=None):
